@@ -9,7 +9,7 @@ START > RESTART > WRITE > READ > STOP; Q4 Timer: decrement under en & value != 0
 disabled, latch on update; Watchdog: feed has priority, decrement saturates.
 Not decided: all waveform timing (bit period, sampling point, divider arithmetic)."""
 import ast
-from ..core import AnalysisError, norm, const_fold
+from ..core import AnalysisError, norm, const_fold, cnorm
 from .. import boolx as B
 from .. import q
 from ..fx import FX
@@ -50,7 +50,7 @@ def _eff_trans(fx, info, src):
 def run(ctx):
     ctx.rule("Q1", "every peripheral FSM: targets defined, reset reachable from every state", min_sites=8)
     ctx.rule("Q2", "UART 8N1: frame constants, terminal count 9 on both sides, right shift / LSB first, tick-gated counters, "
-                   "accumulator enabled only in RUN, RX start on a falling edge of the synchronised pad", min_sites=23)
+                   "accumulator enabled only in RUN, RX start on a falling edge of the synchronised pad; TX and RX share the tuning word", min_sites=25)
     ctx.rule("Q3", "SPI: count on clk_fall in RUN, MOSI shifted on fall, MISO on rise, cs from xfer_enable/cs_mode, done only in "
                    "IDLE; I2C: effective priority START > RESTART > WRITE > READ > STOP; bit counter 8 data bits + ack", min_sites=30)
     ctx.rule("Q4", "Timer: decrement under en & value != 0, reload at zero, load when disabled, latch on update; Watchdog: feed "
@@ -77,6 +77,41 @@ def run(ctx):
 
     # ================================================================ Q2 UART
     um = ctx.mod(UART)
+    # transmitter and receiver run from the same tuning word -- the programmed one when the baud rate is dynamic (path rule)
+    from .. import pathx as P
+    phy = um.method("RS232PHY", "__init__")
+    nph = 0
+    badp = None
+    for p in P.feasible_paths(phy):
+        if p.end == "raise":
+            continue
+        pos = {"tx": -1, "rx": -1}
+        last_def, last_val, dyn = -1, None, None
+        for j, e in enumerate(p.ev):
+            if e[0] == "test" and norm(e[1]) == "with_dynamic_baudrate":
+                dyn = e[2]
+            if e[0] != "stmt" or isinstance(e[1], (ast.If, ast.For, ast.While)):
+                continue
+            st = e[1]
+            if isinstance(st, ast.Assign) and any(norm(t) == "tuning_word" for t in st.targets):
+                last_def, last_val = j, norm(st.value)
+            for c in P.calls_in(st):
+                f = norm(c.func)
+                if f in ("RS232PHYTX", "RS232PHYRX") and len(c.args) >= 2 and norm(c.args[1]) == "tuning_word":
+                    k = "tx" if f.endswith("TX") else "rx"
+                    pos[k] = j
+                    pos[k + "_def"] = last_def
+        nph += 1
+        ok = pos["tx"] >= 0 and pos["rx"] >= 0 and pos.get("tx_def") == pos.get("rx_def") == last_def and last_def >= 0 and \
+            (dyn is not True or last_val == "self._tuning_word.storage")
+        if not ok and badp is None:
+            badp = (pos, last_val, dyn)
+    ctx.ob("Q2", UART, "RS232PHY", "TX and RX are built from the same (final) tuning word on every path", badp is None and nph >= 2,
+           "" if badp is None else f"on the path with_dynamic_baudrate={badp[2]} the constructions see different definitions of tuning_word "
+                                   f"({badp[0]}; final value {badp[1]}): one direction keeps the build-time baud rate when software reprograms it", phy)
+    tw = [norm(n.value) for n in ast.walk(phy) if isinstance(n, ast.Assign) and norm(n.targets[0]) == "tuning_word"]
+    ok = len(tw) == 2 and cnorm(tw[0]) == cnorm("int(baudrate / clk_freq * 2 ** 32)")
+    ctx.ob("Q2", UART, "RS232PHY", "tuning word = baudrate / clk_freq * 2**32", ok, "" if ok else f"{tw}", phy)
     consts = {k: const_fold(um.const(k)) for k in ("RS232_IDLE", "RS232_START", "RS232_STOP")}
     ok = consts == {"RS232_IDLE": 1, "RS232_START": 0, "RS232_STOP": 1}
     ctx.ob("Q2", UART, "<constants>", "idle 1, start 0, stop 1", ok, "" if ok else f"{consts}")
@@ -229,7 +264,7 @@ def run(ctx):
         ctx.ob("Q3", I2C, "I2CMasterMachine", f"IDLE -> {dst} effective guard = {w}", ok,
                "" if ok else f"effective guard {B.show(eff[dst]) if dst in eff else '(no transition)'}: command priority changed", 0)
     bits = {a.v: a.gtext() for a in i2.find(domain="sync", target="bits") if a.state and a.state[1] == "IDLE"}
-    ok = bits == {"8 - 1": "(self.read)", "8": "(self.write)"}
+    ok = bits == {"7": "(self.read)", "8": "(self.write)"}       # (8 - 1 is read folded)
     ctx.ob("Q3", I2C, "I2CMasterMachine", "bit counter: 8 data bits (+ ack slot on writes)", ok, "" if ok else f"{bits}")
     ce = i2.find(domain="comb", target="fsm.ce")
     ok = len(ce) == 1 and B.equivalent(B.from_expr(ce[0].value), B.from_expr("run | self.cg.clk2x"))
